@@ -14,6 +14,12 @@
 #define SPN(x) _ZNSt10shared_ptrIN5boost9container8flat_mapIN4crab8variableIN4ikos8z_numberE2VNEES6_St4lessIS8_EvEEE##x
 #define MAKE_SHARED _ZSt11make_sharedIN5boost9container8flat_mapIN4crab8variableIN4ikos8z_numberE2VNEES6_St4lessIS8_EvEEJEESt10shared_ptrINSt9enable_ifIXntsr8is_arrayIT_EE5valueESE_E4typeEEDpOT0_
 
+#ifdef LINCST_CONCRETE
+uint64_t g_v;     /* ghost variable index at which coefficient-wise facts are instantiated: arbitrary, never assigned */
+#define COEFWISE_NEG(r, a) (FM_SIZE(MAPP(*(r))) == FM_SIZE(MAPP(*(a))) && fm_get(MAPP(*(r)), g_v) == -fm_get(MAPP(*(a)), g_v))
+#else
+#define COEFWISE_NEG(r, a) 1
+#endif
 /* ===================== PART 0: callee contracts on the term container ===================== */
 /* ASSUMED (shared_ptr ownership plumbing, never enforced): copying a shared_ptr passes the same map on,
  * destroying one changes no map, make_shared<map_t>() yields a new, empty map. */
@@ -40,7 +46,9 @@ __CPROVER_ensures(__CPROVER_return_value == (LE_CONST(self) ? 1 : 0));
 void LEK(ngEv)(LE *ret, LE *self)
 __CPROVER_requires(FRESH(le_neg, ret, sizeof(LE)) && FRESH(le_neg, self, sizeof(LE)) && le_okz(self, 2 * ZB))
 __CPROVER_assigns(*ret)
-__CPROVER_ensures(le_okz(ret, 2 * ZB) && LE_CST(ret) == -LE_CST(self) && LE_E(ret) == -LE_E(self) && LE_CONST(ret) == LE_CONST(self));
+__CPROVER_ensures(le_okz(ret, 2 * ZB) && LE_CST(ret) == -LE_CST(self) && LE_CONST(ret) == LE_CONST(self))
+__CPROVER_ensures(!NEG_LEMMAS(self) || LE_E(ret) == -LE_E(self))
+__CPROVER_ensures(TOP(le_neg, COEFWISE_NEG(ret, self)));
 
 /* harness input: an arbitrary constraint; the values the uninterpreted symbols take on its map are recorded as
  * witnesses (g_E: variable part under the valuation, g_const: "no term") for the native replay */
@@ -169,7 +177,6 @@ void h_negate(void){ INLC(a); LC r; LCK(6negateEv)(&r, &a);
 #define CAPT 4
 struct lein { LE e; FM m; PR t[CAPT]; unsigned char room; };
 #define INLE(A) IN(struct lein, A); A.e.f0.f0.f0 = &A.m; FM_START(&A.m) = A.t; FM_CAP(&A.m) = A.room ? CAPT : FM_SIZE(&A.m)
-uint64_t g_v;     /* ghost variable index at which coefficient-wise facts are instantiated: arbitrary, never assigned */
 #else
 #define INLE(A) IN(LE, A)
 #endif
@@ -181,7 +188,7 @@ uint64_t g_v;     /* ghost variable index at which coefficient-wise facts are in
 void h_le_is_constant(void){ INLE(A); LEK(11is_constantEv)(&A.e); REACH; }
 #endif
 /* unary minus (the contract the constraint layer uses): BOUNDED: at most NT = 2 terms */
-//@check id=le_neg fn=_ZNK4ikos17linear_expressionINS_8z_numberE2VNEngEv props=C20 defs=LINCST_CONCRETE unwind=3 bounded="<=2 terms" timeout=600 first_timeout=300
+//@check id=le_neg fn=_ZNK4ikos17linear_expressionINS_8z_numberE2VNEngEv props=C20 defs=LINCST_CONCRETE unwind=4 bounded="<=2 terms"
 #ifdef CHECK_le_neg
-void h_le_neg(void){ INLE(A); LE r; LEK(ngEv)(&r, &A.e); REACH; }
+void h_le_neg(void){ INLE(A); GHOSTG(uint64_t, g_v); LE r; LEK(ngEv)(&r, &A.e); SATGUARD(NEG_LEMMAS(&A.e) && FM_SIZE(&A.m) == 2); REACH; }
 #endif
